@@ -142,7 +142,7 @@ func TestCheck(t *testing.T) {
 			}
 			for _, sc := range scenarios() {
 				if sc.Name == r.Scenario {
-					res := e3.RunOnce(t, sc, r.Choices, nil)
+					res := e3.RunOnce(t, sc, r.Choices, nil, r.Demote)
 					c.Case(true)
 					for _, v := range res.Viols {
 						c.Violate(sc.Name+":"+v.Key, v.Desc, r)
